@@ -39,6 +39,8 @@ def required_cells(tier):
         req["pair:%s,%s" % (a, b)] = 30 if q else 1000
     for qn in QUERIES:
         req["query:" + qn] = 300
+    for bn in ("Circle", "Cylinder", "Cone", "Parallelogram", "Parallelepiped"):
+        req["builder:" + bn] = 40
     return req
 
 
@@ -48,6 +50,22 @@ def cases(rng, budget, widx, nworkers, tier):
     while True:
         ka, kb = PAIRS[i % len(PAIRS)]
         i += 1
+        if i % 11 == 0:
+            # shape builders: their measures must scale like everything else, whatever axis they are built along
+            bname = rng.choice(("Circle", "Cylinder", "Cone", "Parallelogram", "Parallelepiped"))
+            c = gen.rpt(rng, 3, (1, 2))
+            if bname in ("Circle", "Cylinder", "Cone"):
+                prm = {"axis": gen.rdir(rng, 3), "r": rng.choice((F(1, 2), F(1), F(3, 2), F(2))), "n": rng.choice((3, 4, 5, 6, 8))}
+            else:
+                while True:
+                    vs = [gen.rdir(rng, 2) for _ in range(3)]
+                    if K.det3(*vs) != 0:
+                        break
+                prm = {"vs": vs}
+            for pi in rng.sample(range(48), 6):
+                t = tuple(F(rng.randint(-8, 8), rng.choice((1, 2, 4))) for _ in range(3))
+                yield {"builder": bname, "c": c, "prm": prm, "perm": pi, "t": t, "k": rng.choice(SCALES), "label": "builder"}
+            continue
         if ka == "VEC":
             a, b = ("VEC", gen.rdir(rng, 4)), ("VEC", gen.rdir(rng, 4))
             if rng.random() < 0.3:
@@ -141,7 +159,53 @@ def _lift(d, r):
     return lift(d, r)
 
 
+def _build(G, bname, c, prm):
+    P = G.Point(*[float(x) for x in c])
+    V = lambda v: G.Vector(*[float(x) for x in v])
+    if bname == "Circle":
+        return G.Circle(P, V(prm["axis"]), float(prm["r"]), prm["n"])
+    if bname in ("Cylinder", "Cone"):
+        return getattr(G, bname)(P, float(prm["r"]), V(prm["axis"]), prm["n"])
+    if bname == "Parallelogram":
+        return G.Parallelogram(P, V(prm["vs"][0]), V(prm["vs"][1]))
+    return G.Parallelepiped(P, *[V(v) for v in prm["vs"]])
+
+
+def _judge_builder(case):
+    G = load()
+    M_ = PERMS[case["perm"]]
+    t, k = case["t"], F(case["k"])
+    bname, c, prm = case["builder"], case["c"], case["prm"]
+    mu = core.Multi()
+    mu.cell("perm:%d" % case["perm"], "scale:%s" % k, "builder:" + bname, "query:measure")
+    tc = xform(("P", c), M_, t, k)[1]
+    tprm = dict(prm)
+    if "axis" in prm:
+        tprm["axis"] = xform(("VEC", prm["axis"]), M_, t, k)[1]
+        tprm["r"] = prm["r"] * k
+    else:
+        tprm["vs"] = [xform(("VEC", v), M_, t, k)[1] for v in prm["vs"]]
+    o0, e0, _ = M.call(lambda: _build(G, bname, c, prm), pure=False)
+    o1, e1, _ = M.call(lambda: _build(G, bname, tc, tprm), pure=False)
+    if (e0 is None) != (e1 is None):
+        mu.fail("builder:%s:raises-only-on-one-side" % bname, "%s: base %r, transformed %r (perm %d, k=%s)" % (bname, e0, e1, case["perm"], k))
+        return mu.result()
+    if e0 is not None:
+        return mu.result()
+    kf = float(k)
+    for name, f in (("length", kf), ("area", kf * kf), ("volume", kf ** 3)):
+        if not hasattr(o0, name):
+            continue
+        _diag["queries_compared"] += 1
+        a, b = getattr(o0, name)(), getattr(o1, name)()
+        if abs(b - a * f) > 1e-9 * max(1.0, abs(a * f)):
+            mu.fail("builder:%s:%s-not-equivariant" % (bname, name), "%s.%s() = %r on the transformed arguments, expected %g x %r (perm %d, k=%s)" % (bname, name, b, f, a, case["perm"], k))
+    return mu.result(outcome=bname)
+
+
 def judge(case):
+    if "builder" in case:
+        return _judge_builder(case)
     G = load()
     a, b = case["a"], case["b"]
     ka, kb = a[0], b[0]
@@ -203,5 +267,7 @@ def worker_report():
 
 
 def describe(case):
+    if "builder" in case:
+        return {"builder": case["builder"], "centre": C.show_short(case["c"]), "perm": [list(x) for x in PERMS[case["perm"]]], "k": str(case["k"])}
     return {"a": C.show_short(case["a"], 140), "b": C.show_short(case["b"], 140), "perm": [list(x) for x in PERMS[case["perm"]]],
             "t": C.show_short(case["t"]), "k": str(case["k"])}
